@@ -46,6 +46,14 @@ theorem range_step_pos (a b s : Int) (hs : 0 < s) :
 theorem range_from (a b : Int) : range a b 1 = if a < b then a :: range (a + 1) b 1 else [] :=
   range_step_pos a b 1 (by omega)
 
+/-- `range(a, b)` has `b - a` items (none when `b ≤ a`) -/
+theorem length_range_one (a b : Int) : (range a b 1).length = (b - a).toNat := by
+  generalize hn : (b - a).toNat = n
+  induction n generalizing a with
+  | zero => rw [range_from, if_neg (by omega)]; rfl
+  | succ n ih =>
+    rw [range_from, if_pos (by omega), List.length_cons, ih (a + 1) (by omega)]
+
 theorem len_nil {α : Type} : len ([] : List α) = 0 := rfl
 theorem len_cons {α : Type} (x : α) (l : List α) : len (x :: l) = len l + 1 := by
   simp [len]
@@ -84,5 +92,90 @@ theorem slice_last {α : Type} (l : List α) :
   | cons x t =>
     have e : (-1 + ((x :: t).length : Int)).toNat = t.length := by simp only [List.length_cons]; omega
     rw [e, drop_last, List.getLast?_eq_some_getLast (by simp)]
+
+/-! ## dicts (association lists) -/
+
+namespace Dict
+variable {κ ν : Type} [DecidableEq κ]
+
+omit [DecidableEq κ] in
+@[simp] theorem items_eq (d : Dict κ ν) : items d = d := rfl
+
+theorem find_nil (k : κ) : find ([] : Dict κ ν) k = none := rfl
+
+theorem find_cons (p : κ × ν) (d : Dict κ ν) (k : κ) :
+    find (p :: d) k = if p.1 = k then some p.2 else find d k := by
+  obtain ⟨a, b⟩ := p
+  simp [find]
+
+theorem find_eq_none_iff (d : Dict κ ν) (k : κ) : find d k = none ↔ k ∉ d.map (·.1) := by
+  induction d with
+  | nil => simp [find]
+  | cons p d ih =>
+    rw [find_cons]
+    by_cases h : p.1 = k
+    · simp [h]
+    · simp only [if_neg h, ih, List.map_cons, List.mem_cons, not_or]
+      exact ⟨fun h2 => ⟨fun e => h e.symm, h2⟩, fun h2 => h2.2⟩
+
+theorem get?_of_find_some {d : Dict κ ν} {k : κ} {v : ν} (h : find d k = some v) : get? d k = .ok v := by
+  simp [get?, h]
+
+theorem get?_of_find_none {d : Dict κ ν} {k : κ} (h : find d k = none) :
+    get? d k = .error PyExc.KeyError := by
+  simp [get?, h]
+
+theorem contains_eq (d : Dict κ ν) (k : κ) : contains d k = (find d k).isSome := rfl
+
+/-- storing under an absent key appends -/
+theorem set_of_find_none (d : Dict κ ν) (k : κ) (v : ν) (h : find d k = none) : set d k v = d ++ [(k, v)] := by
+  induction d with
+  | nil => rfl
+  | cons p d ih =>
+    obtain ⟨a, b⟩ := p
+    rw [find_cons] at h
+    by_cases hk : a = k
+    · simp [hk] at h
+    · simp only [if_neg hk] at h
+      simp [set, hk, ih h]
+
+theorem update_of_nodup (l : List (κ × ν)) : ∀ (acc : Dict κ ν), ((acc ++ l).map (·.1)).Nodup →
+    update acc l = acc ++ l := by
+  induction l with
+  | nil => intro acc _; simp [update]
+  | cons p l ih =>
+    intro acc h
+    have hnot : find acc p.1 = none := by
+      rw [find_eq_none_iff]
+      intro hm
+      rw [List.map_append, List.nodup_append] at h
+      exact h.2.2 _ hm _ (by simp) rfl
+    have e : update acc (p :: l) = update (set acc p.1 p.2) l := by simp [update]
+    rw [e, set_of_find_none _ _ _ hnot, ih]
+    · simp
+    · simpa using h
+
+/-- a dict rebuilt from pairs with pairwise different keys is the list of pairs (same order) -/
+theorem ofPairs_of_nodup (l : List (κ × ν)) (h : (l.map (·.1)).Nodup) : ofPairs l = l := by
+  have := update_of_nodup l [] (by simpa using h)
+  simpa [ofPairs] using this
+
+end Dict
+
+/-- `[(a, b) for a, b in l]` is `l` -/
+theorem map_pair_eta {α β : Type} (l : List (α × β)) : l.map (fun (a, b) => (a, b)) = l := by
+  induction l with
+  | nil => rfl
+  | cons p l ih => obtain ⟨a, b⟩ := p; simp [ih]
+
+theorem mod?_natCast (t w : Nat) (hw : 1 ≤ w) :
+    mod? (t : Int) (w : Int) = .ok (((t % w : Nat)) : Int) := by
+  unfold mod?
+  rw [if_neg (by omega)]
+  cases t with
+  | zero => simp [Int.fmod]
+  | succ n => rfl
+
+theorem mod?_zero (a : Int) : mod? a 0 = .error PyExc.ZeroDivisionError := by simp [mod?]
 
 end PyRt
